@@ -921,8 +921,6 @@ class Device(device.Device):
             timeout_msec = max(min(int(timeout * 1000), 0xFFFF), 1)
         else:
             timeout_msec = 0
-        self.chipset.in_set_rf(target.brty_send, target.brty_recv)
-        self.chipset.in_set_protocol(self.chipset.in_set_protocol_defaults)
         in_set_protocol_settings = {}
         if target.brty_send.endswith('A'):
             in_set_protocol_settings['add_parity'] = 1
@@ -934,6 +932,9 @@ class Device(device.Device):
             in_set_protocol_settings['add_eof'] = 1
             in_set_protocol_settings['check_eof'] = 1
         try:
+            self.chipset.in_set_rf(target.brty_send, target.brty_recv)
+            self.chipset.in_set_protocol(
+                self.chipset.in_set_protocol_defaults)
             if ((target.brty == '106A' and target.sel_res and
                  target.sel_res[0] & 0x60 == 0x00)):
                 # Driver must check TT2 CRC to get ACK/NAK
@@ -948,6 +949,9 @@ class Device(device.Device):
             if error == "RECEIVE_TIMEOUT_ERROR":
                 raise nfc.clf.TimeoutError
             raise nfc.clf.TransmissionError
+        except StatusError as error:
+            log.debug(error)
+            raise nfc.clf.TransmissionError(str(error))
 
     def _tt2_send_cmd_recv_rsp(self, data, timeout_msec):
         # The Type2Tag implementation needs to receive the Mifare
